@@ -1,5 +1,6 @@
 import Rare.Proofs.C02
 import Rare.Proofs.C02Filter
+import Rare.Proofs.C02Named
 import Rare.Model.C02Plan
 import Rare.Props.C01
 import Rare.Props.C04
@@ -25,6 +26,33 @@ theorem getMatch_spec (line : Bytes) (indices : List Int) (idx : Int)
     (hidx : minInt64 ≤ idx ∧ idx ≤ maxInt64) :
     getMatch line indices idx = .ok (specGroup line indices idx) :=
   getMatch_eq_spec line indices idx hwf hlen hidx
+
+/-- **`{name}`.**  For a name table built as the regex wrapper builds it from `regexp.SubexpNames()`
+(`C16.regexNameTable`: every group, named or not, advances the index; a repeated name keeps its last
+group), in any iteration order `σ` of the map: `GetKey(name)` is `GetMatch` of the REAL submatch index
+of the last group carrying that name – so, on an engine's index list, the text of that group in the
+leftmost match, empty when the group did not participate – wherever unnamed groups stand before,
+after, around or inside the named one.  A name no group carries reads as the `<NAME>` error marker.
+(`src`, `line`, `.`, `#`, `.#`, `#.`, `@` are answered by `GetKey` itself before the table is consulted:
+a group named `line` or `src` is shadowed.) -/
+theorem named_group_value (c : MatchCtx) (subexpNames : List Bytes) (key : Bytes) (k : Nat)
+    (hσ : c.names.Perm (C16.regexNameTable subexpNames)) (hres : key ∉ reservedKeys)
+    (hk : subexpNames[k]? = some key) (hne : key ≠ [])
+    (hlast : ∀ j, k < j → subexpNames[j]? ≠ some key)
+    (hwf : WF c.line c.indices) (hlen : (c.indices.length : Int) < 4611686018427387904)
+    (hkr : (k : Int) ≤ maxInt64) :
+    getKey c key = (getMatch c.line c.indices (k : Int)).map .val ∧
+    getKey c key = .ok (.val (specGroup c.line c.indices (k : Int))) := by
+  have h1 := getKey_regex_name c subexpNames key k hσ hres hk hne hlast
+  refine ⟨h1, ?_⟩
+  rw [h1, getMatch_eq_spec c.line c.indices k hwf hlen ⟨by unfold minInt64; omega, hkr⟩]
+  rfl
+
+/-- a name that no group of the expression carries -/
+theorem unknown_name_marker (c : MatchCtx) (subexpNames : List Bytes) (key : Bytes)
+    (hσ : c.names.Perm (C16.regexNameTable subexpNames)) (hres : key ∉ reservedKeys) (hno : key ∉ subexpNames) :
+    getKey c key = .ok (.val Expr.ErrorArgName) :=
+  getKey_regex_missing c subexpNames key hσ hres hno
 
 /-- Groups that do not exist read as empty. -/
 theorem missing_group_empty (line : Bytes) (indices : List Int) (k : Int)
@@ -269,6 +297,17 @@ example :
      | .ok segs => (render segs, visible (render segs), strip segs)
      | .error _ => ([], [], []))
     = (lit "a\x1b[1mb \x1b[31mc\x1b[0m\n", lit "ab c\n", lit "a\x1b[1mb c\n") := by decide
+
+/-- `(\w+) (?P<path>\S+) (?P<status>\d+)` on `GET /x 200`: `path` is group 2, `status` group 3 (the unnamed
+group counts); `(?P<a>x)(y)(?P<a>z)`: the name keeps its last group -/
+example : C16.regexNameTable [[], [], lit "path", lit "status"] = [(lit "path", 2), (lit "status", 3)] ∧
+    (getKey ⟨lit "GET /x 200", [0, 10, 0, 3, 4, 6, 7, 10], C16.regexNameTable [[], [], lit "path", lit "status"], [], 1⟩
+      (lit "path")).toOption.map (fun a => match a with | .val b => b | .json => []) = some (lit "/x") ∧
+    C16.regexNameTable [[], lit "a", [], lit "a"] = [(lit "a", 3)] := by decide +kernel
+
+/-- the hypotheses of `named_group_value` are satisfiable (`path` is not a reserved key, it is group 2) -/
+example : lit "path" ∉ reservedKeys ∧ ([[], [], lit "path", lit "status"] : List Bytes)[2]? = some (lit "path") ∧
+    lit "line" ∈ reservedKeys := by decide +kernel
 
 example : matcherPlan true false (lit "err (\\d+)") [] true true = .regex (lit "(?i)err (\\d+)") true := by decide
 
